@@ -24,8 +24,8 @@ ASSUMPTIONS = [
     'param.random_seed is left at its default; times are ints or Fractions (floats are cast with a warning)',
     'the global Dynamic.time_fn Time instance is used (each shard is its own process; state restored per case)',
 ]
-REQUIRED = {'none_value_reads': 100, 'late_time_dependence_reads': 50, 'strict_time_contexts': 2, 'clock_tree_reads': 250, 'reads': 3000, 'revisit_reads': 500, 'inspections': 300, 'contexts': 100, 'pushpops': 100, 'reads_raised': 20,
-            'sampled_reads': 100, 'sampled_cross_checks': 20,
+REQUIRED = {'none_value_reads': 100, 'late_time_dependence_reads': 50, 'strict_time_contexts': 2, 'clock_tree_reads': 140, 'reads': 3000, 'revisit_reads': 500, 'inspections': 300, 'contexts': 100, 'pushpops': 100, 'reads_raised': 20,
+            'sampled_reads': 100, 'sampled_cross_checks': 12,
             'class_level_generator_sets': 50, 'pushpops_through_holder': 50}
 
 _st = {}
